@@ -48,6 +48,9 @@ func (d *Data) MergeLabels(v dvid.VersionID, op labels.MergeOp, info dvid.ModInf
 	if len(op.Merged) == 0 {
 		return 0, fmt.Errorf("merge requested without any labels to merge")
 	}
+	if _, found := op.Merged[op.Target]; found {
+		return 0, fmt.Errorf("can't merge label %d into itself", op.Target)
+	}
 	dvid.Debugf("Merging %s into label %d ...\n", op.Merged, op.Target)
 
 	d.StartUpdate()
